@@ -39,11 +39,12 @@ _Val.declare('VR', ('r', z3.IntSort()))     # object reference (class via classo
 _Val.declare('VT', ('t', z3.IntSort()))     # a type object: 1=int 2=float 3=str 4=bool 5=bytes ...; repo classes 1000+uid
 _Val.declare('VE', ('e', z3.IntSort()), ('m', z3.IntSort()))   # enum member (enum uid, member index)
 _Val.declare('VC', ('c', z3.IntSort()))     # opaque callable id
+_Val.declare('VY', ('y', z3.StringSort()))  # bytes (code points 0..255)
 Val = _Val.create()
 
-TAGS = ('none', 'bool', 'int', 'float', 'str', 'ref', 'type', 'enum', 'fn')
+TAGS = ('none', 'bool', 'int', 'float', 'str', 'ref', 'type', 'enum', 'fn', 'bytes')
 TYPE_IDS = {'int': 1, 'float': 2, 'str': 3, 'bool': 4, 'bytes': 5, 'list': 6, 'tuple': 7, 'dict': 8, 'set': 9, 'object': 10}
-RECOG = {'none': 'is_VN', 'bool': 'is_VB', 'int': 'is_VI', 'float': 'is_VF', 'str': 'is_VS', 'ref': 'is_VR', 'type': 'is_VT', 'enum': 'is_VE', 'fn': 'is_VC'}
+RECOG = {'none': 'is_VN', 'bool': 'is_VB', 'int': 'is_VI', 'float': 'is_VF', 'str': 'is_VS', 'ref': 'is_VR', 'type': 'is_VT', 'enum': 'is_VE', 'fn': 'is_VC', 'bytes': 'is_VY'}
 
 
 def recog(tag, t):
@@ -111,12 +112,13 @@ class VRef(V):
   nullable: t == 0 means None.   exact: dynamic class is exactly cls.   elem: Kind of container elements.
   """
 
-  def __init__(self, cls, t, nullable=False, exact=False, elem=None):
+  def __init__(self, cls, t, nullable=False, exact=False, elem=None, keykind=None):
     self.cls = cls
     self.t = z3.IntVal(t) if isinstance(t, int) else t
     self.nullable = nullable
     self.exact = exact
     self.elem = elem
+    self.keykind = keykind
 
   def __repr__(self):
     return '<VRef %s %s%s>' % (getattr(self.cls, 'name', self.cls), self.t, '?' if self.nullable else '')
@@ -230,12 +232,13 @@ class Raised(object):
 # ---------------------------------------------------------------------------------------------
 class Kind(object):
 
-  def __init__(self, tag, arg=None, elem=None, nullable=False, tags=None):
+  def __init__(self, tag, arg=None, elem=None, nullable=False, tags=None, key=None):
     self.tag = tag          # none bool int float str bytes enum ref list dict set val py fn
     self.arg = arg          # enum / class name
     self.elem = elem        # Kind for containers
     self.nullable = nullable
     self.tags = tags        # for 'val': allowed tags (tuple) or None
+    self.key = key          # Kind of dict keys (default: str)
 
   def __repr__(self):
     s = self.tag
@@ -278,9 +281,19 @@ def parse_kind(s):
     return Kind('val', tags=tags)
   for c in ('list', 'dict', 'set'):
     if s == c:
-      return Kind(c, elem=Kind('val'), nullable=nullable)
+      return Kind(c, elem=Kind('val'), key=Kind('str') if c == 'dict' else None, nullable=nullable)
     if s.startswith(c + '['):
-      return Kind(c, elem=parse_kind(s[len(c) + 1:-1]), nullable=nullable)
+      inner = s[len(c) + 1:-1]
+      depth, cut = 0, None
+      for n, ch in enumerate(inner):
+        depth += ch in '[{'
+        depth -= ch in ']}'
+        if ch == ',' and depth == 0:
+          cut = n
+          break
+      if c == 'dict' and cut is not None:
+        return Kind(c, elem=parse_kind(inner[cut + 1:]), key=parse_kind(inner[:cut]), nullable=nullable)
+      return Kind(c, elem=parse_kind(inner), key=Kind('str') if c == 'dict' else None, nullable=nullable)
   if ':' in s:
     tag, arg = s.split(':', 1)
     return Kind(tag, arg=arg, nullable=nullable)
@@ -488,8 +501,10 @@ def to_val(v):
     return Val.VI(v.t)
   if isinstance(v, VFloat):
     return Val.VF(v.t)
-  if isinstance(v, (VStr, VBytes)):
+  if isinstance(v, VStr):
     return Val.VS(v.t)
+  if isinstance(v, VBytes):
+    return Val.VY(v.t)
   if isinstance(v, VRef):
     if v.nullable:
       return z3.If(v.t == 0, Val.VN, Val.VR(v.t))
